@@ -342,6 +342,35 @@ Theorem C03_emit_roundtrip_cell : forall rlibs libs lib rcells c x rp,
 Proof. exact cell_roundtrip. Qed.
 Print Assumptions C03_emit_roundtrip_cell.
 
+(* FROM THE BOOLEAN CLASS (Proofs/EdifEmitCell.v): position of a cell in the file
+   libs = prev ++ Lc :: after, li_cells Lc = done ++ rest ([env]); the reader has then read
+   map norm_lib prev and map norm_cell done *)
+From SV Require Import Proofs.EdifEmitCell.
+Theorem C03_emit_roundtrip_cell_writable : forall libs prev lib done c x,
+  env libs prev lib done -> cell_w prev lib done c = true ->
+  ident_taken (ce_ident c) (map ce_ident done) = false -> name_taken (ce_name c) (map ce_name done) = false ->
+  cell_sexp [] libs lib c = EmOk x ->
+  exists args, x = SList (KW "Cell" :: args) /\
+    parse_cell (map norm_lib prev) lib (map norm_cell done) args = Ok (norm_cell c).
+Proof. exact cell_w_roundtrip. Qed.
+Print Assumptions C03_emit_roundtrip_cell_writable.
+(* ONE LIBRARY of a file libs = prev ++ Lc :: after whose earlier libraries are writable *)
+Theorem C03_emit_roundtrip_library : forall libs prev Lc after x,
+  libs = prev ++ Lc :: after -> uniq_ci (map li_ident libs) = true -> prev_ok prev ->
+  lib_w prev Lc = true ->
+  ident_taken (li_ident Lc) (map li_ident prev) = false -> name_taken (li_name Lc) (map li_name prev) = false ->
+  lib_sexp [] libs Lc = EmOk x ->
+  exists args, x = SList (KW "Library" :: args) /\ parse_library (map norm_lib prev) args = Ok (norm_lib Lc).
+Proof. exact lib_w_roundtrip. Qed.
+Print Assumptions C03_emit_roundtrip_library.
+(* THE WHOLE FILE at document level: every writable value; the document written (header, status with
+   timestamp and program metadata, all libraries, design) is read back as norm_file n *)
+Theorem C03_emit_roundtrip_file : forall ts prog n d,
+  writable n = true -> params_w ts prog = true -> emit_file ts prog [] n = EmOk d ->
+  atoms_ascii d = true -> elab_file d = Ok (norm_file n).
+Proof. exact file_roundtrip. Qed.
+Print Assumptions C03_emit_roundtrip_file.
+
 (* The general statement over the decidable class [writable] (Fmt/EdifEmit.v: what the reader
    checks on the written file, minus the open findings: "&_" buses, bit-like scalar names, names
    with * ?, non-ASCII text, line breaks in strings). NOT PROVED. Every run evaluates, on every
